@@ -460,6 +460,12 @@ Proof.
   eapply in_flat_map_intro; [exact H |]. cbn. apply String.eqb_neq in Hne. rewrite Hne. exact Hd.
 Qed.
 
+(* what the formatted file itself uses is irrelevant for its own preserve set: the file's own entry is
+   skipped, nothing is subtracted (seeded regression C08-a replaced this by a set difference) *)
+Theorem own_names_irrelevant :
+  forall files self f, file_preserve ((self, f) :: files) self = file_preserve files self.
+Proof. intros. unfold file_preserve. cbn. rewrite String.eqb_refl. reflexivity. Qed.
+
 (* R08.2 (pinned tree, repaired by F08-1): a name that is only from-imported was not collected *)
 Theorem from_import_not_collected_pinned :
   exists f a, In a (f_imports f) /\ i_from a = true /\ ~ In (i_name a) (used_names_pinned f).
